@@ -938,6 +938,11 @@ class Fxp():
         # convert input value to valid format
         val, original_vdtype, raw = self._format_inupt_val(val, raw=raw)
 
+        if index is not None and isinstance(self.val, np.ndarray) and self.val.ndim > 0 and isinstance(val, np.ndarray) and val.ndim > 0:
+            # a value that does not fit the selection is rejected here, before anything is changed (value type, a complex
+            # buffer, flags, callbacks): the same broadcast NumPy applies to the assignment, tried on scratch arrays
+            np.empty(np.shape(self.val[index]), dtype=bool)[...] = np.zeros(val.shape, dtype=bool)
+
         # val limits according word size
         if self.signed:
             val_max = (1 << (self.n_word-1)) - 1
